@@ -453,8 +453,9 @@ def _validate_policy(namespace):
             return_code = 1
         # If a rule has invalid syntax it will be forced to '!'. If the literal
         # rule from the policy file isn't '!' then this means there was an
-        # error parsing it.
-        if str(enforcer.rules[name]) == '!' and unparsed_policies[name] != '!':
+        # error parsing it. An unquoted ! is read as null by the YAML parser.
+        if (str(enforcer.rules[name]) == '!' and
+                unparsed_policies[name] not in ('!', None)):
             print('Failed to parse rule:', unparsed_policies[name])
             return_code = 1
     return return_code
